@@ -195,6 +195,111 @@ Theorem C03_imerge : forall (A : Type) (rep : list A -> A) size (h : list (nat *
   chunked size (imerge rep size h) (map (fun b => rep (snd b)) h).
 Proof. exact imerge_spec. Qed.
 
+(** ================================================================== round 2 *)
+
+(** Split used directly: n consumers read the same channel; whatever consumer [assign k] the scheduler gives
+    the k-th batch to, every batch (hence every record) is received exactly once over all consumers. *)
+Theorem C03_split : forall (A : Type) n (h : list (nat * list A)) assign,
+  length assign = length h -> Forall (fun j => j < n) assign ->
+  Permutation (concat (map (split_recv h assign) (seq 0 n))) h.
+Proof. exact split_spec. Qed.
+Theorem C03_split_records : forall (A : Type) n (h : list (nat * list A)) assign,
+  length assign = length h -> Forall (fun j => j < n) assign ->
+  Permutation (concat (map (fun i => flatten (split_recv h assign i)) (seq 0 n))) (flatten h).
+Proof. exact split_records. Qed.
+
+(** Load / CompleteFileIterator behind SortBatches (as the readers call it): all the records in input order, as
+    ONE batch numbered 0 (no batch for no record) — for every partition and arrival order. *)
+Theorem C03_completefile : forall (A : Type) (bs : list (list A)) (h : list (nat * list A)),
+  Permutation h (numbered_from 0 bs) ->
+  load (sortb h) = concat bs /\
+  completefile (sortb h) = match concat bs with [] => [] | l => [(0, l)] end.
+Proof. exact completefile_spec. Qed.
+
+(** MakeIConditionalWorker under any schedule [e] of its workers: re-sequenced, the output is the worker applied
+    to the records that satisfy the condition, in input order (the others are not forwarded: transcribed). *)
+Theorem C03_conditional_worker : forall (A : Type) (c : A -> bool) (f : A -> list A) (bs : list (list A)) (h e : list (nat * list A)),
+  Permutation h (numbered_from 0 bs) -> Permutation e (wmap (cond_worker c f) h) ->
+  sortb e = numbered_from 0 (map (flat_map (cond_worker c f)) bs) /\
+  flatten (sortb e) = flat_map f (filter c (concat bs)).
+Proof. exact cond_worker_sorted. Qed.
+
+(** paired streams: PairedWith keeps numbers and order; FilterAnd on a paired stream keeps exactly the pairs whose
+    two mates satisfy the predicate, in order, in batches 0..m-1, and the stream of mates is the mates of the
+    stream of records (pairs stay together) — whatever the schedule [e] of the filter workers. *)
+Theorem C03_pairedwith : forall (A : Type) (mate : A -> A) (r : list (nat * list A)),
+  map fst (pairedwith mate r) = map fst r /\ flatten (pairedwith mate r) = map mate (flatten r).
+Proof. exact pairedwith_spec. Qed.
+Theorem C03_filterand_paired : forall (A : Type) (mate : A -> A) (p : A -> bool) size (bs : list (list A)) (h e : list (nat * list A)),
+  1 <= size -> Permutation h (numbered_from 0 bs) -> Permutation e (fmap (fun x => p x && p (mate x)) h) ->
+  chunked size (rebatch size e) (filter (fun x => p x && p (mate x)) (concat bs)) /\
+  rebatch size e = filterand_paired mate p size h /\
+  flatten (pairedwith mate (rebatch size e)) = map mate (filter (fun x => p x && p (mate x)) (concat bs)).
+Proof. exact filterand_paired_spec. Qed.
+
+(** Distribute followed by an order-sensitive consumer on every output (dispatcher path of obidistribute):
+    one stream per key, exactly the records of that key, in order, in batches 0..m-1 of [size2]. *)
+Theorem C03_distribute_rebatch : forall (A : Type) (code : A -> nat) size size2 (bs : list (list A)) (h : list (nat * list A)),
+  1 <= size -> 1 <= size2 -> Permutation h (numbered_from 0 bs) ->
+  let d := distribute_rebatch code size size2 h in
+  NoDup (map fst d) /\ (forall k, In k (map fst d) <-> In k (map code (concat bs))) /\
+  (forall k r, In (k, r) d -> chunked size2 r (filter (fun x => Nat.eqb (code x) k) (concat bs))).
+Proof. exact distribute_rebatch_spec. Qed.
+
+(** ---- Termination protocol, round 2: goroutines as processes over Go's primitives ([gact_step]: send on a
+    closed channel / double close / negative counter panic, Wait blocks while the counter is positive, a receiver
+    sees the end only after the close).  For EVERY well-formed instance (any number of groups, iterators,
+    producers, closers, Split consumers; [wf_cfg]) and EVERY schedule [ls]:
+    (safety) no panic is ever possible; (closed after the last push, once) when an iterator is closed no goroutine has
+    a push or a second close of it left; (progress) while some goroutine is unfinished some goroutine can move — no
+    deadlock; (bounded) every step consumes one unit of the programs; hence (maximal run) a run that cannot be
+    extended has closed every iterator, delivered every push and released every counter, and every Split consumer has
+    observed the end.  What stays assumed: [gact_step] is Go's semantics; the receive side of an unbuffered channel is
+    abstracted (a push never blocks: some consumer is alive until the close); a goroutine that consumes one iterator to
+    feed another is split in a consumer and a producer (the composition of stages is acyclic by construction). *)
+Theorem C03_protocol_safety : forall guard iters procs, wf_cfg guard iters procs = true ->
+  forall ls c, crun (cinit procs) ls = Some c -> can_panic c = false.
+Proof. exact proto_safety. Qed.
+Theorem C03_protocol_closed_after_last_push : forall guard iters procs, wf_cfg guard iters procs = true ->
+  forall ls c, crun (cinit procs) ls = Some c -> forall it, g_closed (fst c) it = true ->
+    (forall p, In p (snd c) -> ~ In it (proc_pushes p)) /\ ~ In it (concat (map proc_closes (snd c))).
+Proof. exact proto_closed_after_last_push. Qed.
+Theorem C03_protocol_progress : forall guard iters procs, wf_cfg guard iters procs = true ->
+  forall ls c, crun (cinit procs) ls = Some c -> cfinished c = false -> exists i c', cstep c i = Some c'.
+Proof. exact proto_progress. Qed.
+Theorem C03_protocol_bounded : forall guard iters procs, wf_cfg guard iters procs = true ->
+  forall ls c, crun (cinit procs) ls = Some c -> length ls + cmeasure c = cmeasure (cinit procs).
+Proof. exact proto_bounded. Qed.
+Theorem C03_protocol_maximal_run : forall guard iters procs, wf_cfg guard iters procs = true ->
+  forall ls c, crun (cinit procs) ls = Some c -> (forall i, cstep c i = None) ->
+  cfinished c = true /\
+  (forall it, In it iters -> g_closed (fst c) it = true) /\
+  (forall it, g_pushed (fst c) it = count_occ Nat.eq_dec (concat (map proc_pushes procs)) it) /\
+  (forall g, g_wg (fst c) g = 0).
+Proof. exact proto_maximal_run. Qed.
+(** the table combinator -> instance (Model.v, [inst_*]): every instance is well-formed, for every number of
+    producers / pushes / consumers / outputs, so the five theorems above apply to every combinator. *)
+Theorem C03_protocol_instances :
+  (forall pushes m, wf_cfg (fun x => x) [0] (inst_std pushes m) = true) /\
+  (forall sched, wf_cfg (fun x => x) [0; 1] (inst_divideon sched) = true) /\
+  (forall n, wf_cfg (fun _ => 0) [0; 1] (inst_copytee n) = true) /\
+  (forall m pushes, Forall (fun k => 1 <= k <= m) pushes -> wf_cfg (fun _ => 0) (seq 1 m) (inst_distribute m pushes) = true).
+Proof. exact (conj inst_std_wf (conj inst_divideon_wf (conj inst_copytee_wf inst_distribute_wf))). Qed.
+(** what the acceptance of a recorded trace of the REAL iterators means: the per-goroutine programs read off the
+    trace are a well-formed instance (so every schedule of them is safe and terminates, not only the observed one) and
+    the observed events are a complete run of the transition system. *)
+Theorem C03_protocol_trace_sound : forall tr, trace_ok tr = true ->
+  wf_cfg (tr_guard tr) (tr_iters tr) (tr_procs tr) = true /\
+  exists c, crun (cinit (tr_procs tr)) (tr_labels tr) = Some c /\ cfinished c = true.
+Proof. exact trace_ok_sound. Qed.
+Example C03_protocol_nonvacuous :
+  wf_cfg (fun x => x) [0; 1] (inst_divideon [true; false; true]) = true /\
+  (exists c, crun (cinit (inst_divideon [true; false; true])) [0;0;0;0;0;1;1;2;1;1;3] = Some c /\ cfinished c = true) /\
+  trace_ok2 (ShTee, [(0,0,0,0);(0,0,1,1);(0,1,0,0);(0,2,0,0);(0,1,1,1);(0,2,7,1);(1,0,4,1);(2,1,4,1);(1,0,4,0);(2,2,4,1);(2,1,4,0);(2,2,4,0);
+                     (1,0,2,0);(3,0,3,0);(3,0,5,0);(2,0,6,0);(2,1,2,0);(4,1,3,0);(4,1,5,0);(4,2,5,0);(5,2,6,0);(6,1,6,0)]) = true.
+Proof. split; [reflexivity|]. split; [eexists; split; [vm_compute; reflexivity|reflexivity]|vm_compute; reflexivity]. Qed.
+
+
 (** the hypotheses are satisfiable by a non-trivial history (empty batch, out-of-order arrival) *)
 Example C03_hyp_nonvacuous :
   Permutation [(2, [5; 6]); (0, [1]); (1, [])] (numbered_from 0 [[1]; []; [5; 6]]) /\
@@ -234,3 +339,17 @@ Print Assumptions C03_rebatch_loop_equiv.
 Print Assumptions C03_fragments_record.
 Print Assumptions C03_fragments.
 Print Assumptions C03_imerge.
+Print Assumptions C03_split.
+Print Assumptions C03_split_records.
+Print Assumptions C03_completefile.
+Print Assumptions C03_conditional_worker.
+Print Assumptions C03_pairedwith.
+Print Assumptions C03_filterand_paired.
+Print Assumptions C03_distribute_rebatch.
+Print Assumptions C03_protocol_safety.
+Print Assumptions C03_protocol_closed_after_last_push.
+Print Assumptions C03_protocol_progress.
+Print Assumptions C03_protocol_bounded.
+Print Assumptions C03_protocol_maximal_run.
+Print Assumptions C03_protocol_instances.
+Print Assumptions C03_protocol_trace_sound.
